@@ -521,7 +521,14 @@ class Interp:
             if k == "goto":
                 bb = t["target"]
             elif k == "return":
-                return ("return", fr.store.get(0, UNIT), fr)
+                v = fr.store.get(0, UNIT)
+                dv = self.deref(v)
+                if fr.depth == 0 and self.cfg.get("split_result_return") and isinstance(dv, Sym) and \
+                        strip_generics(body.locals[0]["ty"]).startswith("core::result::Result"):
+                    # a Result passed through from a callee: tabulate both outcomes
+                    d = self.dec.ask("try(%s)" % dv.e, ["continue", "break"])
+                    v = ok(Sym("ok(%s)" % dv.e)) if d == "continue" else err(Sym("residual(%s)" % dv.e))
+                return ("return", v, fr)
             elif k == "switch":
                 v = self.deref(self.operand(fr, t["discr"]))
                 bb = self.switch(t, v)
